@@ -40,6 +40,14 @@ def memberText (env : Env) (c i : Nat) : Option Str :=
     else none
   | none => none
 
+/-- A member of an enumeration without `str` mix-in (`enum.Enum`, `IntEnum`): a structured object
+    all of whose instance attributes (`_value_`, `_name_`, …) are private.  (A member of a class the
+    environment does not list is not a `str` either.) -/
+def plainMember (env : Env) (c : Nat) : Bool :=
+  match env.cls c with
+  | some ci => !(ci.mixin == .str)
+  | none => true
+
 /-- The (key, value) pairs of a mapping. -/
 def mappingPairs : Val → Option (List (Val × Val))
   | .dict kvs => some kvs
@@ -50,7 +58,8 @@ def publicOnly (fs : List (Str × Val)) : List (Str × Val) := fs.filter fun f =
 /-- The (field, value) pairs the statement speaks of: every field of a named tuple, the public
     fields of any other structured object.  (`.inst c _` with `c` a TypedDict denotes no Python
     object — a TypedDict instance is a `dict`; `.opaque` is an instance of a class without
-    annotations, slots or attributes.) -/
+    annotations, slots or attributes; a member of an enumeration without `str` mix-in has private
+    attributes only.) -/
 def fieldPairs (env : Env) : Val → Option (List (Str × Val))
   | .inst c fs =>
     match classFlavour env c with
@@ -59,6 +68,7 @@ def fieldPairs (env : Env) : Val → Option (List (Str × Val))
     | some _ => some (publicOnly fs)
     | none => none
   | .opaque _ => some []
+  | .member c _ => if plainMember env c then some [] else none
   | _ => none
 
 /-- The elements of any other iterable, in iteration order. -/
@@ -159,7 +169,7 @@ def inDomainValues (env : Env) : Val → Bool
     | some _ => true
     | none => false
   | .list _ | .tuple _ | .deque _ | .iter _ | .set _ | .frozenset _ | .str _ => true
-  | .member c i => (memberText env c i).isSome
+  | .member c i => plainMember env c || (memberText env c i).isSome
   | .opaque _ => true
   | _ => false
 
@@ -233,6 +243,21 @@ theorem memberText_some {env : Env} {c i : Nat} {s : Str} (h : memberText env c 
         simp [h]
     · cases h
 
+theorem plainMember_eq (env : Env) (c : Nat) : plainMember env c = !isStrMixin env c := by
+  unfold plainMember isStrMixin; cases env.cls c <;> rfl
+
+/-- The two kinds of enumeration members the domain holds: without `str` mix-in (nothing yielded),
+    or a `str` whose text is known. -/
+theorem member_cases {env : Env} {c i : Nat} (h : (plainMember env c || (memberText env c i).isSome) = true) :
+    (plainMember env c = true ∧ isStrMixin env c = false) ∨
+      (plainMember env c = false ∧ ∃ s, memberText env c i = some s) := by
+  rw [plainMember_eq] at h ⊢
+  cases hm : isStrMixin env c with
+  | false => exact .inl ⟨rfl, rfl⟩
+  | true =>
+    simp only [hm, Bool.not_true, Bool.false_or] at h
+    exact .inr ⟨rfl, Option.isSome_iff_exists.mp h⟩
+
 theorem isPair_eq (env : Env) (v : Val) : isPair env v = pairShaped env v := by
   cases v <;> simp only [isPair, collSize, pairShaped] <;> try rfl
   case inst c fs =>
@@ -301,11 +326,10 @@ theorem itervalues_spec (env : Env) (x : Val) (h : inDomainValues env x = true) 
     | none => simp [hf] at h
     | some f => cases f <;> simp [hf] at h <;> exact ⟨rfl, rfl⟩
   case member c i =>
-    cases hs : memberText env c i with
-    | none => simp [hs] at h
-    | some s =>
-      obtain ⟨h1, h2⟩ := memberText_some hs
-      simp [itervalues, specValues, mappingPairs, fieldPairs, elements, hs, h1, h2, ofSpec]
+    rcases member_cases h with ⟨hp, hm⟩ | ⟨hp, s, hs⟩
+    · simp [itervalues, specValues, mappingPairs, fieldPairs, hp, hm, ofSpec]
+    · obtain ⟨h1, h2⟩ := memberText_some hs
+      simp [itervalues, specValues, mappingPairs, fieldPairs, elements, hp, hs, h1, h2, ofSpec]
 
 /-- **`iteritems` meets its specification** on every input of the domain. -/
 theorem iteritems_spec (env : Env) (x : Val) (h : inDomainItems env x = true) :
@@ -337,12 +361,11 @@ theorem iteritems_spec (env : Env) (x : Val) (h : inDomainItems env x = true) :
     | none => simp [hf] at hv
     | some f => cases f <;> simp [hf] at hv <;> exact ⟨rfl, rfl⟩
   case member c i =>
-    cases hs : memberText env c i with
-    | none => simp [hs] at hv
-    | some s =>
-      obtain ⟨h1, h2⟩ := memberText_some hs
-      simp only [iteritems, h1, h2, if_true, enumerateFrom_zero, specItems, mappingPairs, fieldPairs, elements, hs,
-        Option.map_some, specSeqItems_chars]
+    rcases member_cases hv with ⟨hp, hm⟩ | ⟨hp, s, hs⟩
+    · simp [iteritems, specItems, mappingPairs, fieldPairs, hp, hm, ofSpec]
+    · obtain ⟨h1, h2⟩ := memberText_some hs
+      simp only [iteritems, h1, h2, if_true, enumerateFrom_zero, specItems, mappingPairs, fieldPairs, elements, hs, hp,
+        Bool.false_eq_true, if_false, Option.map_some, specSeqItems_chars]
       exact ⟨rfl, rfl⟩
 
 /-! ## Every element exactly once, in order -/
@@ -664,12 +687,105 @@ theorem domain_complete (env : Env) (x : Val) (hv : inDomainValues env x = true)
       | exact seqOk_of_supported env _ items h hu
       | exact setCase _ h
 
+/-! ## Outside the quantifier: scalars raise TypeError, nothing else does -/
+
+/-- Values that are neither iterable nor carry a `__dict__` (`vars(x)` raises TypeError): None, bool,
+    int, float, Decimal, Fraction, PurePath, re.Pattern, date, datetime, time, timedelta. -/
+def isScalar : Val → Bool
+  | .none | .bool _ | .int _ | .float _ | .dec _ | .frac _ _ | .path _ | .pattern _
+  | .date _ | .datetime _ _ | .time _ _ | .timedelta _ => true
+  | _ => false
+
+/-- `.inst c _` with `c` a TypedDict: not the encoding of any Python object (see `fieldPairs`). -/
+def typedDictInst (env : Env) : Val → Bool
+  | .inst c _ => classFlavour env c == some .typeddict
+  | _ => false
+
+/-- **scalars_raise_type.** Every scalar — Fraction, Decimal, float and PurePath like int and None —
+    makes both functions raise TypeError at the call; no item is delivered. -/
+theorem scalars_raise_type (env : Env) (x : Val) (h : isScalar x = true) :
+    iteritems env x = .error .type ∧ itervalues env x = .error .type := by
+  cases x <;> simp only [isScalar, Bool.false_eq_true] at h <;> exact ⟨rfl, rfl⟩
+
+/-- **member_without_str_yields_nothing.** A member of an enumeration without `str` mix-in yields
+    nothing (it is in the domain: a structured object without public fields). -/
+theorem member_without_str_yields_nothing (env : Env) (c i : Nat) (h : plainMember env c = true) :
+    inDomainItems env (.member c i) = true ∧ iteritems env (.member c i) = .ok [] ∧ itervalues env (.member c i) = .ok [] := by
+  have hm : isStrMixin env c = false := by rw [plainMember_eq] at h; simpa using h
+  simp [inDomainItems, inDomainValues, iteritems, itervalues, h, hm]
+
+/-- **outside_domain.** The domain, the scalars and the unsupported rest partition the values: an
+    input outside the domain either is a scalar (TypeError from both functions) or is answered
+    `unsupported` by both (bytes-like, UUID, an instance of a class the environment does not list, a
+    `str` member whose text is not a string) — so, with `itervalues_spec` / `iteritems_spec` /
+    `domain_supported`, TypeError at the call is raised for scalars and for nothing else. -/
+theorem outside_domain (env : Env) (x : Val) (h : inDomainValues env x = false) (ht : typedDictInst env x = false) :
+    (isScalar x = true ∧ iteritems env x = .error .type ∧ itervalues env x = .error .type) ∨
+      (isScalar x = false ∧ iteritems env x = .error .unsupported ∧ itervalues env x = .error .unsupported) := by
+  cases x <;> simp only [inDomainValues, reduceCtorEq] at h <;>
+    first
+      | exact .inl ⟨rfl, rfl, rfl⟩
+      | exact .inr ⟨rfl, rfl, rfl⟩
+      | skip
+  case inst c fs =>
+    refine .inr ⟨rfl, ?_⟩
+    simp only [typedDictInst, beq_eq_false_iff_ne, ne_eq] at ht
+    simp only [iteritems, itervalues, classFlavour_eq]
+    cases hf : classFlavour env c with
+    | none => exact ⟨rfl, rfl⟩
+    | some f => cases f <;> simp [hf] at h ht
+  case member c i =>
+    refine .inr ⟨rfl, ?_⟩
+    simp only [Bool.or_eq_false_iff, plainMember_eq, Bool.not_eq_false', Option.isSome_eq_false_iff,
+      Option.isNone_iff_eq_none] at h
+    obtain ⟨hm, hn⟩ := h
+    have hv : ∀ s, memberValue env c i ≠ some (.str s) := by
+      intro s hs
+      unfold isStrMixin at hm
+      unfold memberValue at hs
+      unfold memberText at hn
+      cases hc : env.cls c with
+      | none => simp [hc] at hm
+      | some ci =>
+        simp only [hc] at hm hs hn
+        simp only [hm, if_true] at hn
+        cases hmem : ci.members[i]? with
+        | none => simp [hmem] at hs
+        | some p =>
+          obtain ⟨n, v⟩ := p
+          simp only [hmem, Option.map_some, Option.some.injEq] at hs
+          subst hs
+          simp [hmem] at hn
+    simp only [iteritems, itervalues, hm]
+    cases hmv : memberValue env c i with
+    | none => exact ⟨rfl, rfl⟩
+    | some v =>
+      trace_state
+      cases v <;> first | exact ⟨rfl, rfl⟩ | skip
+
+/-- Conversely, TypeError at the call comes from a scalar only. -/
+theorem type_error_only_scalars (env : Env) (x : Val) (h : itervalues env x = .error .type) : isScalar x = true := by
+  by_cases hd : inDomainValues env x = true
+  · obtain ⟨h1, h2⟩ := itervalues_spec env x hd
+    obtain ⟨vs, hv⟩ := Option.isSome_iff_exists.mp h2
+    rw [h1, hv] at h; cases h
+  · by_cases ht : typedDictInst env x = true
+    · cases x <;> simp only [typedDictInst, Bool.false_eq_true] at ht
+      case inst c fs =>
+        simp only [beq_iff_eq] at ht
+        simp [itervalues, classFlavour_eq, ht] at h
+    · rcases outside_domain env x (by simpa using hd) (by simpa using ht) with ⟨hs, _, _⟩ | ⟨_, _, hu⟩
+      · exact hs
+      · rw [hu] at h; cases h
+
 /-! ## Non-vacuity: concrete environments and values, evaluated by the model -/
 
 def envEx : Env := [
   { flavour := .namedtuple, fields := [("a".toList, .scalar .str), ("b".toList, .scalar .int)] },
   { flavour := .plain, fields := [("a".toList, .scalar .int), ("_p".toList, .scalar .int)] },
-  { flavour := .dataclass, fields := [("x".toList, .coll .vartuple (.scalar .int))] } ]
+  { flavour := .dataclass, fields := [("x".toList, .coll .vartuple (.scalar .int))] },
+  { flavour := .plain, mixin := .none, members := [("m0".toList, .int 1), ("m1".toList, .str "ab".toList)] },
+  { flavour := .plain, mixin := .str, members := [("m0".toList, .str "ab".toList)] } ]
 
 /-- a named tuple whose first field is the 2-character string 'ab' -/
 def ntAb : Val := .inst 0 [("a".toList, .str "ab".toList), ("b".toList, .int 1)]
@@ -699,5 +815,21 @@ example : inDomainItems [] (.set [.int 1, .int 2]) = false := by rfl
 example : inDomainItems [] (.list [.uuid 1]) = false := by rfl
 example : inDomainItems [] (.set [.tuple [.int 1, .int 2], .tuple [.int 3, .int 4]]) = true := by rfl
 example : inDomainValues [] (.int 3) = false := by rfl
+/-- a member of an enumeration without `str` mix-in (even one whose value is the 2-character 'ab'):
+    in the domain, nothing yielded, and as an element it is not a pair -/
+example : plainMember envEx 3 = true := by rfl
+example : inDomainItems envEx (.member 3 1) = true := by rfl
+example : iteritems envEx (.member 3 1) = .ok [] ∧ itervalues envEx (.member 3 1) = .ok [] := ⟨rfl, rfl⟩
+example : iteritems envEx (.list [.member 3 1]) = .ok [.ok (.int 0, .member 3 1)] := by rfl
+/-- … whereas a member of a `str` enumeration is its text -/
+example : plainMember envEx 4 = false := by rfl
+example : iteritems envEx (.member 4 0) = .ok [.ok (.int 0, .str "a".toList), .ok (.int 1, .str "b".toList)] := by rfl
+/-- scalars: Fraction, Decimal, float, PurePath raise TypeError like int -/
+example : isScalar (.frac 1 2) = true ∧ isScalar (.dec "1.5".toList) = true ∧ isScalar (.float "1.5".toList) = true
+    ∧ isScalar (.path "a/b".toList) = true := ⟨rfl, rfl, rfl, rfl⟩
+example : iteritems [] (.frac 1 2) = .error .type ∧ itervalues [] (.frac 1 2) = .error .type := ⟨rfl, rfl⟩
+example : inDomainValues [] (.frac 1 2) = false ∧ typedDictInst [] (.frac 1 2) = false := ⟨rfl, rfl⟩
+/-- the unsupported rest -/
+example : inDomainValues [] (.uuid 1) = false ∧ isScalar (.uuid 1) = false ∧ iteritems [] (.uuid 1) = .error .unsupported := ⟨rfl, rfl, rfl⟩
 
 end Typelib.C18
